@@ -9,6 +9,7 @@
  *                       TOKS tok tok ...   with tok one of
  *                       KW:<name> OP:<name> OPTION WORD:<hex> INT:<decimal> DBL:<%a> EOL EOF
  *                       ERR:brace ERR:keyword ERR:char:<hh> ERR:other
+ *                     and finally ALLOC:<tps_text_allocation>
  *   npd HEX|-         scan_line until T_EOF or -1:
  *                       LINES rec;rec;...  with rec = <record type name>:<hex field>,<hex field>,...
  *                       (each field as the bytes between its start and its terminating NUL in nss_text;
@@ -147,7 +148,7 @@ static void run_tok(vnadata_t *vdp, FILE *fp, unsigned flags)
 	if (tps.tps_token == T_EOF)
 	    break;
     }
-    printf("\n");
+    printf(" ALLOC:%zu\n", tps.tps_text_allocation);
     free(tps.tps_text);
     free(tps.tps_value_vector);
 }
